@@ -82,6 +82,16 @@ def lib_cases(chk, ctx):
                            [size + 1], [max(1, size // 3) + 1], [4096, 1]]) for _ in range(2)]
         out.append({"kind": "lib", "content": [kind, size, i], "cfg": cfg, "seg": seg, "segkind": segk, "reads": reads,
                     "zh": ctx["zh"], "zh_plain": ctx.get("zh_plain")})
+    # a minimum given WITHOUT a maximum (the setter compares it with a maximum that is still unset), incl. minima above the default
+    # maximum of 10 MiB with more than that written into one chunk: whatever the setter says, a write must return and round-trip
+    for j, (cmin, manual, size, kind) in enumerate([(12 << 20, True, (10 << 20) + 70000, "zeros"), ((10 << 20) + 1, False, (10 << 20) + 9000, "periodic:7"),
+                                                    (8192, True, 50000, "text"), (1, False, 30000, "license")] if chk.quick else
+                                                   [(m, mn, sz, k) for m in (1, 100, 8192, 131073, 10 << 20, (10 << 20) + 1, 12 << 20) for mn in (True, False)
+                                                    for sz, k in ((40000, "text"), ((10 << 20) + 70000, "zeros"))]):
+        cfg = {"comp": r.choice([0, 2]), "level": 1, "manual": manual, "cmin": cmin, "chunk_hash": None, "full_hash": None, "uncomp": False, "closefd0": False,
+               "extra_end": 0, "dictspec": None}
+        out.append({"kind": "lib", "content": [kind, size, 900000 + j], "cfg": cfg, "seg": [1 << 30] if j % 2 == 0 else [1 << 20], "segkind": "one", "reads": [[65536]],
+                    "zh": ctx["zh"], "zh_plain": ctx.get("zh_plain")})
     return out
 
 
